@@ -32,6 +32,9 @@ FUNC_SPACE = {"carquet_schema_find_column": "LEAF", "carquet_reader_num_columns"
               "carquet_schema_num_columns": "LEAF#count", "carquet_reader_num_row_groups": "RG#count"}
 
 
+_P = None        # the program being checked (set by check): callee lookups for arguments handed on
+
+
 def _member_key(x):
     x = x.strip_casts()
     if x.k == "MemberExpr":
@@ -51,6 +54,14 @@ def _expr_space(fn, e, depth=0):
         return FUNC_SPACE[x.callee]
     if x.k == "DeclRefExpr" and x.get("dk") in ("local", "param") and depth < 3:
         return _var_space(fn, x.get("d"), x.get("dk"), depth + 1)
+    if x.k == "BinaryOperator" and x.op in ("+", "-") and depth < 3:
+        # an index moved by a constant is still an index of the same space (element + 1 is the first child;
+        # leaf + 1 is the next leaf - it is not "the element after the root" unless the schema is flat)
+        l, r = x.c[0].strip_casts(), x.c[1].strip_casts()
+        if r.cv is not None and l.cv is None:
+            return _expr_space(fn, l, depth + 1)
+        if l.cv is not None and r.cv is None and x.op == "+":
+            return _expr_space(fn, r, depth + 1)
     return None
 
 
@@ -102,6 +113,19 @@ def _var_space(fn, d, dk, depth=0):
                 s = _count_space(fn, r)
                 if s:
                     spaces.add(s)
+    # handed on as an argument: the callee's own range check / use tells which space it expects
+    if _P is not None and depth < 4:
+        for c in fn.calls():
+            for ai, a in enumerate(c.args()):
+                x = a.strip_casts() if a is not None else None
+                if x is None or x.k != "DeclRefExpr" or x.get("d") != d or x.get("dk") != dk:
+                    continue
+                for g in _P.by_name.get(c.callee or "", []):
+                    if g.cfg is None or g.key() == fn.key() or ai >= len(g.params):
+                        continue
+                    s = _var_space(g, g.params[ai]["d"], "param", depth + 1)
+                    if s:
+                        spaces.add(s)
     if dk == "local":
         for e in _defs(fn, d):
             if e.cv is not None:
@@ -115,7 +139,8 @@ def _var_space(fn, d, dk, depth=0):
 
 
 def check(ctx, fns, rule="R13.index-space", key_prefix="index-space"):
-    P = ctx.P
+    global _P
+    P = _P = ctx.P
     n = classified = 0
     for fn in fns:
         seen = {}
